@@ -172,7 +172,7 @@ def _exec(spec, sched, call, pre, stats, events, tag):
         stats["reach.discover_seam"] = stats.get("reach.discover_seam", 0) + 1
     events.append([tag, out["ok"], out["exc"]])
     if not out["ok"]:
-        return world, None, {"clause": "valid_call_raised", "step": tag, "details": out, "key": {"exc": out["exc"]}}
+        return world, None, {"clause": "valid_call_raised", "step": tag, "details": out, "key": {"exc": out["exc"], "msg": (out.get("msg") or "")[:40]}}
     dep = {}
     for n in world.leaf_names:
         a = world.grad_array(n)
@@ -203,6 +203,9 @@ def execute(scn):
     cutmodel = Model(spec, cut=call["features"])
     eps = EPS[spec["dtype"]]
     stats, events, viols, sets = {}, [], [], {}
+    from ..world import require_valid
+
+    require_valid(model, call, cutmodel)
     exp = expect_mtl(model, cutmodel, call, eps)
     if exp["overlap"]:
         # generator bug guard: C02 only generates valid calls
